@@ -304,7 +304,9 @@ class Emulsion(list):
             :class:`~numpy.ndarray`: The array containing all droplet data. If entries in
                 this array are modified, it will be reflected in the droplets.
         """
-        data = self.data  # create an array with all the droplet data
+        # create an array with all the droplet data, which needs to be a record array so
+        # that the droplets can access their data as attributes (e.g., when merging)
+        data = self.data.view(np.recarray)
         # link back to droplets
         for i, d in enumerate(self):
             d.data = data[i]
